@@ -1,5 +1,5 @@
 (* Interp/RunLink.v — reference-linking cases (C14):
-     (c14 ENV SCHEMA (order "ns"...) INLINED (ops OP...))
+     (c14 ENV SCHEMA (order|order-so "ns"...) INLINED (ops OP...))     OP ::= (u V) | (rt V) | (vs NATIVE)
    observation (see harness/cmd/harness/c14_scopes.go):
      (r (st LINKS VR) (st LINKS VR)... (rev (st LINKS VR)) (ops O...) (inl O...)) *)
 From Verif Require Import Base.Prelude Base.Str Base.Float Base.GoVal
@@ -64,14 +64,23 @@ Definition run_op14 (e : env) (s : schema) (op : sexp) : sexp :=
                           s_out14 s_val (m_serialize C14_FUEL e s n)]
             | _ => Ls [At "rt"; s_out14 s_val u]
             end
+          else if String.eqb k "vs" then
+            (* Validate and Serialize of a native value, e.g. one carrying the field of a disabled property *)
+            Ls [At "vs"; s_out14 s_unit (m_validate C14_FUEL e s v); s_out14 s_val (m_serialize C14_FUEL e s v)]
           else bad "op"
       | None => bad "value"
       end
   | _ => bad "op shape"
   end.
 
+(* order-so: the namespaces are applied through a StepOutputSchema wrapping the scope.
+   StepOutputSchema.ApplyNamespace / ValidateReferences (step_output.go) hand their arguments to the
+   wrapped scope unchanged, so the model of the wrapper is the model of the scope. *)
 Definition strs_of_order (x : sexp) : option (list string) :=
-  match x with Ls (At "order" :: l) => opt_mapM str_of l | _ => None end.
+  match x with
+  | Ls (At k :: l) => if String.eqb k "order" || String.eqb k "order-so" then opt_mapM str_of l else None
+  | _ => None
+  end.
 
 Definition run_c14_case (x : sexp) : sexp :=
   match x with
